@@ -35,13 +35,25 @@ def fmt_us(us):
     return "%04d%02d%02dT%02d%02d%02d.%06d" % (y, m, d, h, mi, s, us % 1000000)
 
 
-def s4_times(path, cwd, rendering="short", after=None, before=None, tz="+00:00"):
+def bound_text(us, style):
+    """the same instant written three ways: UTC with +00:00; in +05:30 with that offset written; zone-less wall-clock
+    time of -03:30 (to be read under --tz-offset -03:30)"""
+    if style == "off":
+        return fmt_us(us + 330 * 60 * 1000000) + "+05:30"
+    if style == "naive":
+        return fmt_us(us - 210 * 60 * 1000000)
+    return fmt_us(us) + "+00:00"
+
+
+def s4_times(path, cwd, rendering="short", after=None, before=None, tz="+00:00", style="utc"):
     """entry instants (microseconds) in print order, and the per-entry chunks"""
+    if style == "naive":
+        tz = "-03:30"
     args = ["--color", "never", "-t=" + tz, "-u", "-d", "%s%.6f", "--separator", SEP, "--journal-output", rendering]
     if after is not None:
-        args += ["-a", fmt_us(after) + "+00:00"]
+        args += ["-a", bound_text(after, style)]
     if before is not None:
-        args += ["-b", fmt_us(before) + "+00:00"]
+        args += ["-b", bound_text(before, style)]
     r = common.run_s4(args + [path], cwd=cwd, timeout=120)
     if r.timed_out or r.rc not in (0, 1):
         return None, r, args + [path]
@@ -110,6 +122,20 @@ def journals(work, tier):
                 out.append(("v_" + name, fn))
             except common.MachineryError:
                 common.log("[C09] journalctl does not read derived journal %s; skipped" % name)
+    # receive times that do not increase in journal order (names starting with nm_ are left out of the window leg:
+    # seeking by time in such a file is undefined for the library itself)
+    for w, fn0 in list(out):
+        if w not in ("u3", "rhe"):
+            continue
+        base = open(os.path.join(work, fn0), "rb").read()
+        for name, blob in journaledit.clock_variants(base, w):
+            fn = "%s.journal" % name
+            common.write_file(os.path.join(work, fn), blob)
+            try:
+                ref_entries(os.path.join(work, fn))
+                out.append((name, fn))
+            except common.MachineryError:
+                common.log("[C09] journalctl does not read derived journal %s; skipped" % name)
     return out
 
 
@@ -130,23 +156,29 @@ def window_leg(res, tier, prop, work=None):
     work = work or common.scratch_dir(prop + "jw")
     try:
         for jname, fname in journals(work, tier):
+            if jname.startswith("nm_"):
+                continue
             ref = [int(e["__REALTIME_TIMESTAMP"]) for e in ref_entries(os.path.join(work, fname))]
             bs = bounds_for(ref, tier)
-            wins = [(a, None) for a in bs] + [(None, b) for b in bs]
+            wins = [(a, None, "utc") for a in bs] + [(None, b, "utc") for b in bs]
             pairs = bs[:: max(1, len(bs) // (8 if tier == "quick" else 40))]
-            wins += [(a, b) for a in pairs for b in pairs if a <= b]
+            wins += [(a, b, "utc") for a in pairs for b in pairs if a <= b]
+            # the same bounds written with a non-zero offset, and zone-less under a non-zero --tz-offset
+            for st in ("off", "naive"):
+                sub = bs if tier == "thorough" else bs[::3]
+                wins += [(a, None, st) for a in sub] + [(None, b, st) for b in sub] + [(a, b, st) for a in pairs[::2] for b in pairs[::2] if a <= b]
 
             def one(w):
-                return w, s4_times(fname, work, "short", w[0], w[1])
-            for (a, b), (got, r, args) in common.pmap(one, wins):
+                return w, s4_times(fname, work, "short", w[0], w[1], style=w[2])
+            for (a, b, st), (got, r, args) in common.pmap(one, wins):
                 res.count()
-                res.distinct((jname, a, b))
+                res.distinct((jname, a, b, st))
                 exp = [t for t in ref if (a is None or t >= a) and (b is None or t <= b)]
                 if got is None or got[0] != exp:
                     n = None if got is None else len(got[0])
                     at_b = b is not None and b in ref
                     at_a = a is not None and a in ref
-                    res.violation({"kind": "journal", "symptom": "selection-differs", "before_bound_equals_an_entry_time": at_b, "after_bound_equals_an_entry_time": at_a,
+                    res.violation({"kind": "journal", "symptom": "selection-differs", "bound_style": st, "before_bound_equals_an_entry_time": at_b, "after_bound_equals_an_entry_time": at_a,
                                    "missing_exactly_entries_at_before_bound": got is not None and at_b and got[0] == [t for t in exp if t != b]},
                                   "journal %s window [%s,%s]: %s entries printed, %d expected" % (jname, a, b, n, len(exp)),
                                   {"engine": "E-CLI", "args": args, "journal": jname})
